@@ -12,6 +12,8 @@ import Pastel.RealInst
 import Pastel.Lemmas.Clamp
 import Pastel.Props.C05
 import Pastel.Lemmas.Hexcone
+import Pastel.Order
+import Pastel.FloatFns
 
 namespace Pastel.C10
 open Pastel Sc ScOrd Pastel.C05
@@ -202,5 +204,15 @@ theorem composite_channels (b s : Color ℝ) :
   unfold composite
   exact hsl_roundtrip_real _ _ _ _
 
+
+
+/-- On IEEE floats (NaN, ±∞, −0 included): alpha is carried IEEE-equal through every unary
+transformation of a valid colour. -/
+theorem float_alpha_preserved (c : Color Float) (x : Float) (t : CbType) (hc : Valid c) :
+    Sc.feq (lighten c x).alpha c.alpha = true ∧ Sc.feq (darken c x).alpha c.alpha = true ∧
+    Sc.feq (saturate c x).alpha c.alpha = true ∧ Sc.feq (desaturate c x).alpha c.alpha = true ∧
+    Sc.feq (rotateHue c x).alpha c.alpha = true ∧ Sc.feq (complementary c).alpha c.alpha = true ∧
+    Sc.feq (simulateColorblindness c t).alpha c.alpha = true :=
+  alpha_preserved c x t hc
 
 end Pastel.C10
